@@ -1007,10 +1007,20 @@ func (e *specEnv) opaqueCall(pd *Pred, vals []SV) (SV, bool) {
 	}
 	key := "opaque:" + fname
 	ax, done := e.x.opaqueAx[key]
+	if done && ax == "pending" {
+		// a recursive use inside the predicate's own definition: the symbol itself
+		if e.x.opaqueRec == nil {
+			e.x.opaqueRec = map[string]bool{}
+		}
+		e.x.opaqueRec[key] = true
+		return SV{V: TV{SBool, app(fname, args...)}}, true
+	}
 	if !done {
 		if e.x.opaqueAx == nil {
 			e.x.opaqueAx = map[string]string{}
 		}
+		e.x.opaqueAx[key] = "pending"
+		e.x.w.Decl(fmt.Sprintf("(declare-fun %s (%s) Bool)", fname, strings.Join(sorts, " ")))
 		saved := map[string]SV{}
 		had := map[string]bool{}
 		if e.binds == nil {
@@ -1027,7 +1037,18 @@ func (e *specEnv) opaqueCall(pd *Pred, vals []SV) (SV, bool) {
 		nf := len(e.facts)
 		n0 := e.x.freshN
 		e.x.freshN = 900000 + 1000*len(e.x.opaqueAx) // bound names independent of the use site
+		// the definition is evaluated in a scratch state: constants it introduces for literal
+		// package values (OIDs) are local to that state, so they are replaced by their defining terms
+		realSt := e.st
+		scratch := realSt.fork()
+		e.st = scratch
 		body := e.boolOf(e.eval(pd.Expr))
+		e.st = realSt
+		for p := scratch.assumes; p != nil && p != realSt.assumes; p = p.tail {
+			if a, ok := splitCtor(p.head, "="); ok && len(a) == 2 && strings.HasPrefix(a[0], "g_lit_") && !strings.HasPrefix(a[1], "(g_SeqI_len") && !isNumLit(a[1]) {
+				body = replaceWord(body, a[0], a[1])
+			}
+		}
 		e.x.freshN = n0
 		e.facts = e.facts[:nf]
 		for _, pn := range pd.Params {
@@ -1042,7 +1063,12 @@ func (e *specEnv) opaqueCall(pd *Pred, vals []SV) (SV, bool) {
 			return SV{}, false
 		}
 		ap := app(fname, bvs...)
-		ax = fmt.Sprintf("(forall (%s) (! (= %s %s) :pattern (%s)))", binder.String(), ap, body, ap)
+		if e.x.opaqueRec[key] {
+			// a recursive definition unfolds itself: instances of later generations are postponed
+			ax = fmt.Sprintf("(forall (%s) (! (= %s %s) :pattern (%s) :weight 19))", binder.String(), ap, body, ap)
+		} else {
+			ax = fmt.Sprintf("(forall (%s) (! (= %s %s) :pattern (%s)))", binder.String(), ap, body, ap)
+		}
 		e.x.opaqueAx[key] = ax
 		e.x.w.Decl(fmt.Sprintf("(declare-fun %s (%s) Bool)", fname, strings.Join(sorts, " ")))
 	}
@@ -1051,4 +1077,30 @@ func (e *specEnv) opaqueCall(pd *Pred, vals []SV) (SV, bool) {
 	}
 	e.axioms = append(e.axioms, ax)
 	return SV{V: TV{SBool, app(fname, args...)}}, true
+}
+
+func isNumLit(t string) bool { _, ok := isNum(t); return ok }
+
+// replaceWord replaces whole-symbol occurrences of name in an SMT term.
+func replaceWord(term, name, by string) string {
+	var b strings.Builder
+	for i := 0; i < len(term); {
+		j := strings.Index(term[i:], name)
+		if j < 0 {
+			b.WriteString(term[i:])
+			break
+		}
+		j += i
+		end := j + len(name)
+		okL := j == 0 || strings.ContainsRune(" ()", rune(term[j-1]))
+		okR := end == len(term) || strings.ContainsRune(" ()", rune(term[end]))
+		b.WriteString(term[i:j])
+		if okL && okR {
+			b.WriteString(by)
+		} else {
+			b.WriteString(name)
+		}
+		i = end
+	}
+	return b.String()
 }
